@@ -19,7 +19,7 @@ pub const LOOKALIKES: [&str; 12] = [
     "<blockquote>", "<block/>", "<Block>", "< block>", "<blocks>", "<block-x>", "<block a=>", "<block a= >",
     "<block\u{a0}a>", "<BLOCK>", "</Block>", "</blockquote>",
 ];
-const NOISE: [&str; 10] = ["<b>", "</div>", "a < b", "<<", "<>", "x > y", "<3", "</ blok>", "<block", "< /"];
+const NOISE: [&str; 13] = ["<b>", "</div>", "a < b", "<<", "<>", "x > y", "<3", "</ blok>", "<block", "< /", "lo <hi", "Vec<T", "<a href"];
 const END_TAGS: [&str; 6] = ["</block>", "</ block>", "</block >", "< /block>", "</ block >", "<\t/\tblock\t>"];
 
 fn word(rng: &mut Rng, chars: &[&str], lo: usize, hi: usize) -> String {
@@ -109,7 +109,40 @@ fn gen_nodes(lang: &'static Lang, rng: &mut Rng, knobs: &Knobs, depth: usize, co
         if *budget == 0 {
             break;
         }
-        match rng.below(10) {
+        let pick = rng.below(11);
+        if pick == 10 {
+            // nested blocks starting in one comment, i.e. on one line (listed left to right)
+            if *budget >= 2 {
+                let k = rng.range(2, 3).min(*budget);
+                *budget -= k;
+                let mut tags = Vec::new();
+                for _ in 0..k {
+                    *counter += 1;
+                    let name = format!("n{}", *counter);
+                    let mut tag = TagSrc::simple(&[("name", name.as_str())]);
+                    if knobs.echo {
+                        let d = crate::props::mix::scripts_dir();
+                        tag.attrs.push(Attr { ws: " ".into(), name: "check-lua".into(), val: Some((String::new(), String::new(), AVal::Dq(format!("{d}/echo.lua")))) });
+                        tag.attrs.push(Attr { ws: " ".into(), name: "check-lua-pattern".into(), val: Some((String::new(), String::new(), AVal::Dq("[\\s\\S]*".into()))) });
+                    }
+                    tags.push(tag);
+                }
+                let p = place(lang, rng, knobs, false);
+                let start = Place { pre: " ".into(), post: if matches!(p.form, Form::Line(_)) { "".into() } else { " ".into() }, ..p };
+                let mut e = place(lang, rng, knobs, false);
+                while lang.family == Family::Md && matches!(start.form, Form::Line(_)) != matches!(e.form, Form::Line(_)) {
+                    e = place(lang, rng, knobs, false);
+                }
+                let end = Place { pre: " ".into(), post: if matches!(e.form, Form::Line(_)) { "".into() } else { " ".into() }, ..e };
+                let mut body = Vec::new();
+                for _ in 0..rng.below(3) {
+                    body.push(GNode::Text(lang.wrap_token(&format!("v{}", rng.below(50)))));
+                }
+                nodes.push(GNode::Nest { start, tags, body, end, ends_together: rng.chance(1, 2) });
+            }
+            continue;
+        }
+        match pick {
             0..=4 => {
                 *budget -= 1;
                 *counter += 1;
@@ -219,7 +252,7 @@ pub fn generate(mode: Mode, rng: &mut Rng, idx: usize, _tier: Tier) -> CaseOut {
     let knobs = match mode {
         Mode::Blocks => Knobs { rich_tags: rng.chance(1, 3), multiline_ws: true, lookalikes: rng.chance(1, 3), max_depth: 4, langs: all, echo: true },
         Mode::Tags => Knobs { rich_tags: true, multiline_ws: true, lookalikes: true, max_depth: 1, langs: tag_langs, echo: false },
-        Mode::Damaged => Knobs { rich_tags: idx % 2 == 0, multiline_ws: false, lookalikes: false, max_depth: if idx % 4 == 0 { 0 } else { 3 }, langs: all, echo: false },
+        Mode::Damaged => Knobs { rich_tags: idx % 2 == 0, multiline_ws: false, lookalikes: idx % 3 == 1, max_depth: if idx % 4 == 0 { 0 } else { 3 }, langs: all, echo: false },
     };
     let lang = lang(knobs.langs[idx % knobs.langs.len()]);
     let mut knobs = knobs;
